@@ -17,6 +17,8 @@ import json
 import os
 import random
 import re
+import sys
+import time
 import traceback
 import warnings
 
@@ -25,6 +27,15 @@ from .. import expr_replay, tlaval
 from .. import rtlil_parse as rp
 
 LEVEL = "model_checking"
+
+
+def _t(ctx, what, t0):
+    """per-stage wall time into the evidence (and to stderr when VERIF_DEBUG is set)"""
+    dt = round(time.time() - t0, 1)
+    ctx.cov.setdefault("wall_by_step", {})[what] = dt
+    if os.environ.get("VERIF_DEBUG"):
+        print("[c07] %-40s %6.1fs" % (what, dt), file=sys.stderr, flush=True)
+    return time.time()
 
 # ------------------------------------------------------------------------------------------------------------------
 # HierGen configurations (TLA+ constant definitions; see spec/HierGen.tla)
@@ -626,7 +637,8 @@ def _binding_demo(ctx, docs, verdicts):
         d["mods"][0]["conns"].append([[["W", w[0], 0, 0]], [["c", ["0"] * w[1], 0, w[1] - 1]], 10 ** 6])
 
     def missing_wire(d):
-        w = next(w for w in d["mods"][0]["wires"] if w[2] == "input")
+        used = {ch[1] for c in d["mods"][0]["cells"] for _p, spec in c[3] for ch in spec if ch[0] != "c"}
+        w = next(w for w in d["mods"][0]["wires"] if w[0] in used)
         w[0] = w[0] + "_gone"
 
     def widen(d):
@@ -676,8 +688,10 @@ def run(ctx):
         mod_text, cfg_text = _mc_module(consts)
         dump = os.path.join(ctx.tmp, "hiergen_" + name)
         stage = "hiergen/" + name
+        t0 = time.time()
         r = ctx.tlc("MC_HierGen", stage=stage, cfg_text=cfg_text, workers=4, args=("-coverage", "1", "-dump", dump),
                     extra_files={"MC_HierGen.tla": mod_text})
+        t0 = _t(ctx, stage + " enumerate", t0)
         need = ["AddSig"] if consts["MaxSigs"] else []
         need += ["AddExtra"] if consts["MaxExtras"] else []
         ctx.require_actions(r, need, stage)
@@ -688,7 +702,9 @@ def run(ctx):
         if len(items) != r.distinct:
             raise MachineryError("%s: rendered %d designs, TLC enumerated %d" % (stage, len(items), r.distinct))
         total_states += r.distinct
+        t0 = _t(ctx, stage + " render+convert+parse", t0)
         docs, verdicts = _judge(ctx, "hiergen/" + name, items, stage)
+        t0 = _t(ctx, stage + " judge", t0)
         ctx.cov["stages"][stage].update({"designs": len(items), "documents": len(docs)})
         all_docs += docs
         all_verdicts += verdicts
@@ -699,8 +715,11 @@ def run(ctx):
     # ---- seeded random bigger designs --------------------------------------------------------------
     n_rand = 3000 if th else 300
     jobs = [(ctx.rng.getrandbits(40), 6 if i % 3 else 3) for i in range(n_rand)]
+    t0 = time.time()
     items = pmap(_random_worker, jobs, chunksize=8)
+    t0 = _t(ctx, "random render+convert+parse", t0)
     docs, verdicts = _judge(ctx, "random", items, "random")
+    t0 = _t(ctx, "random judge", t0)
     ctx.cov["stages"]["random"] = dict(ctx.cov["stages"].get("random", {}), designs=len(items), documents=len(docs),
                                        cells=sum(v[3] for v in verdicts if v[0] == "ACC"),
                                        wire_bits=sum(v[2] for v in verdicts if v[0] == "ACC"))
